@@ -13,6 +13,11 @@ FLAVOURS = {
  "boundary": "Faults that manifest ONLY at a boundary or extreme argument / state and are correct everywhere else: 0, 1, len-1, len, capacity, capacity+1, usize::MAX, isize::MAX+k, empty buffers or slices, exactly-full buffers, zero-length chunks in the middle of a sequence, a cursor position past the end, an offset that is exactly equal to a length, nbytes == 0 or 8, the last representable value of a bit field. Typical shapes: `<` vs `<=`, a guard that forgets the equal case, a fast path for the empty / full case that skips a step the general path performs, saturating vs wrapping vs checked arithmetic at the extreme.",
  "config": "Faults that manifest ONLY in a particular build configuration while the default debug configuration used by the test suite stays correct: `--release` (no debug assertions, no overflow checks: something that a debug_assert!, an overflow check or a debug-only branch was silently relied upon for), `--no-default-features` (no_std: cfg(not(feature = \"std\")) twins such as abort(), missing chunks_vectored / Reader / Writer, core vs std paths), `--features extra-platforms` (portable-atomic types instead of core atomics), `--features serde`, or `RUSTFLAGS=--cfg loom`. The change may touch a cfg-gated twin, a cfg!(..) branch, a #[cfg] attribute, or code whose behaviour differs by profile. The demonstration must fail under the exact command of that configuration (e.g. `cargo test --release --test demo_seeded`, `cargo test --no-default-features --test demo_seeded`) and pass there on the unmodified crate; say which command.",
  "race": "Faults that need a specific interleaving of two or three threads to manifest (never visible single-threaded): a check-then-act window, a decision taken on a stale value, an update that is not a single atomic read-modify-write, a release that happens before the last use, a winner/loser of a compare-exchange handled asymmetrically, a memory ordering that is too weak for what the code does next. Prefer demonstrations that force the interleaving deterministically (e.g. a global allocator or a Buf/AsRef impl used as a schedule point, barriers) and fail under plain `cargo test`; if only Miri can see it, say so and give the command.",
+ "sequence": "Faults that need a SEQUENCE of at least three API operations on one or more handles to manifest - state that is left subtly wrong by one operation (a stale field, an off-by-some bookkeeping value, a representation switched too early or too late, a reference count or offset that is only wrong after a particular earlier step) and only becomes observable two or more operations later, while each single operation tested in isolation (as the existing tests do) looks right.",
+ "representation": "Faults that affect exactly ONE of the internal representations and leave the others correct: static (`from_static`), owner-backed (`from_owner`), Vec-backed unshared with an even buffer address, Vec-backed unshared with an odd buffer address, shared/promoted (`Shared` control block in bytes.rs), a `BytesMut` in the inline-Vec form (KIND_VEC, with or without a front offset), a `BytesMut` in the shared form (KIND_ARC), a `Bytes` frozen from a shared-form `BytesMut` (bytes_mut.rs SHARED_VTABLE); or, for the Buf/BufMut properties, exactly one of the implementors (`&[u8]`, `Bytes`, `BytesMut`, `io::Cursor`, `VecDeque<u8>`, `Chain`, `Take`, `&mut B`, `Box<B>`, `Vec<u8>`, `&mut [u8]`, `&mut [MaybeUninit<u8>]`, `Limit`). The tests exercise the common representation; pick the one they do not.",
+ "surface": "Faults in the LESS-TRAVELLED API surface that earlier rounds left alone: rarely used inherent methods and conversions (e.g. `unsplit`, `try_reclaim`, `try_into_mut`, `from_owner`, `split`, `spare_capacity_mut`, `zeroed`, `resize`, `extend_from_slice`, `Bytes::is_unique`, `slice_ref`, `into_iter`), trait impls for niche types (`Extend`, `FromIterator`, `IntoIterator`, `From<..>` between handle / Vec / Box / String types, `Borrow`, `fmt::Write`, `io::Read` / `io::Write` / `BufRead` adapters `Reader` / `Writer`, `BufMut for &mut [MaybeUninit<u8>]`, `Buf for VecDeque<u8>` / `Cursor` / `Box<T>` / `&mut T` forwarding impls, `chunks_vectored`, `get_*_ne` / `put_*_ne`, `get_uint` / `get_int` / floats, `put_slice` / `put_bytes` / `put` overrides). Pick functions the test suite barely exercises.",
+ "errorpath": "Faults on the ERROR / PANIC / UNWIND paths: what state is left behind when an operation panics, returns Err, or runs user code that panics (a `Buf`/`BufMut`/`AsRef`/`Iterator`/`Drop` impl supplied by the user) - a field updated before the check that can fail, a guard or drop that no longer runs on the unwinding path, an `Err` returned after part of the work was done, storage that is leaked or freed twice only when the call unwinds, a `try_*` that consumed input before failing, capacity-overflow requests, a handle left in a torn state after `catch_unwind`. The success paths must stay correct.",
+ "fastpath": "Faults introduced by a plausible PERFORMANCE optimisation: a new fast path / early return / cached value / skipped step / weaker-but-cheaper operation (a relaxed load, a skipped reference-count round trip, a reused allocation, a copy elided, a check hoisted out of a loop) that is valid for most states but wrong for a particular state, representation, interleaving or configuration.",
  "disguised": "Faults disguised as cleanups: a helper extracted and shared, control flow reshaped, a std API swapped in, a de-duplication - with the behaviour change hidden inside what reads like a refactoring.",
 }
 def main():
